@@ -3,6 +3,7 @@
 import json, subprocess, sys
 
 HOOK_COMMITS = ["f2c46aac", "b1a8fb5b", "bbcc6d5a"]
+FIX_COMMITS = ["3d29a15d", "ccb20ab7", "6a4c8968", "8f04a981"]
 
 # id -> (engine, level category, technique, level text, level note, design ref)
 CHECKS = {
@@ -16,6 +17,11 @@ CHECKS = {
          "Every operation sequence up to depth 6 over 3 keys (quick) / 4 keys (thorough) from the alphabet {insert at Auto/AsRoot/every block index and side, insert/upsert with a hash owned by another key, upsert, delete, every batch of <=2 (quick) / <=3 (thorough) entries, calculate_lazy_hashes, reload} is applied to the real blob; states are deduplicated on (blob bytes, free-list order). Transition oracle: Ok => contents equal the plain map after the op, Err => bytes/free list/contents unchanged, no panic. State invariant: check_integrity, reload equivalence, root == own bottom-up recomputation, every key has a proof that folds (own SHA-256) to the root.",
          "trusts: hook H3 (free-list order), get_node/get_keys_values as observation of contents; Err is accepted for any operation as long as nothing changed (the property does not say which operations must succeed)",
          "DESIGN.md#c18"),
+ "C15": ("S", "model_checking",
+         "controlled-scheduler exploration of real threads at lock granularity (preemption-bounded DFS, unbounded in thorough) + exhaustive cache-history BFS + bounded-exhaustive input enumeration",
+         "S: 9 scenarios of 2-3 real threads on a shared BlsCache (capacity 1,2) run under a scheduler that owns every lock acquisition through hook H1; every interleaving with <=3 preemptions (quick) / every interleaving (thorough, ~20k schedules) is executed; per schedule: each thread's verdict equals the cache-free verdict, len<=capacity at every scheduling point, no deadlock, the warmed cache still answers correctly. H: every history of <=3/<=4 operations from a 17-letter alphabet (verify valid/invalid over pairs sharing key or message, update, evict) on capacities 1,2,3. E: every pair list of length <=2/<=3 over 5 letters (incl. the infinity key and the empty message) x 6 signature kinds through verify, aggregate_verify, aggregate_verify_gt and the cache (cold/warm, 3 capacities).",
+         "trusts: hook H1 reports every acquisition/release of the cache mutex; no shared state outside that mutex (unsafe_code denied in the workspace outside blst FFI); BLS signature uniqueness for the expected verdict",
+         "DESIGN.md#c15"),
 }
 
 PENDING_REASON = "check not built yet in this round (planned: see DESIGN.md section for this property); not claimed until it runs"
